@@ -435,4 +435,86 @@ theorem countTo_true (n : Nat) : countTo n (fun _ => true) = n := by
   | zero => rfl
   | succ n ih => simp only [countTo, ih]; rfl
 
+/-! ### the mirrored result matrix of `_mutual_information` -/
+
+theorem flat_ne {N a b c d : Nat} (hb : b < N) (hd : d < N) (h : a ≠ c ∨ b ≠ d) :
+    a * N + b ≠ c * N + d := fun e => by
+  have := flat_index_inj hb hd e; omega
+
+theorem miRow_succ {α : Type} (val : Nat → Nat → α) (N i j : Nat) (M : Nat → α) :
+    miRow val N i (j + 1) M =
+      if i = j then miRow val N i j M
+      else upd (upd (miRow val N i j M) (i * N + j) (val i j)) (j * N + i) (val i j) := by
+  simp only [miRow, accum_eq, Nat.add_comm i (j * N)]
+
+theorem miRow_other {α : Type} (val : Nat → Nat → α) (N i n : Nat) (M : Nat → α) (t : Nat)
+    (h : ∀ j, j < n → j ≠ i → t ≠ i * N + j ∧ t ≠ j * N + i) : miRow val N i n M t = M t := by
+  induction n with
+  | zero => rfl
+  | succ n ih =>
+    rw [miRow_succ]
+    have ih' := ih (fun j hj => h j (by omega))
+    by_cases hin : i = n
+    · rw [if_pos hin]; exact ih'
+    · rw [if_neg hin]
+      have := h n (by omega) (fun e => hin e.symm)
+      simp only [upd, if_neg this.1, if_neg this.2]
+      exact ih'
+
+theorem miRow_entry {α : Type} (val : Nat → Nat → α) (N i n : Nat) (M : Nat → α) (j : Nat)
+    (hjn : j < n) (hji : j ≠ i) (hn : n ≤ N) (hi : i < N) :
+    miRow val N i n M (i * N + j) = val i j ∧ miRow val N i n M (j * N + i) = val i j := by
+  induction n with
+  | zero => omega
+  | succ n ih =>
+    rw [miRow_succ]
+    by_cases hj : j = n
+    · subst hj
+      rw [if_neg (fun e => hji e.symm)]
+      simp only [upd]
+      constructor
+      · split <;> simp
+      · simp
+    · have ih' := ih (by omega) (by omega)
+      by_cases hin : i = n
+      · rw [if_pos hin]; exact ih'
+      · rw [if_neg hin]
+        have n1 : i * N + j ≠ i * N + n := flat_ne (by omega) (by omega) (Or.inr hj)
+        have n2 : i * N + j ≠ n * N + i := flat_ne (by omega) hi (Or.inl hin)
+        have n3 : j * N + i ≠ i * N + n := flat_ne hi (by omega) (Or.inl hji)
+        have n4 : j * N + i ≠ n * N + i := flat_ne hi hi (Or.inl hj)
+        simp only [upd, if_neg n1, if_neg n2, if_neg n3, if_neg n4]
+        exact ih'
+
+theorem miFlat_entry {α : Type} (zero : α) (val : Nat → Nat → α) (N n a b : Nat) (hn : n ≤ N)
+    (ha : a < n) (hb : b < a) :
+    miFlat zero val N n (a * N + b) = val a b ∧ miFlat zero val N n (b * N + a) = val a b := by
+  induction n with
+  | zero => omega
+  | succ n ih =>
+    simp only [miFlat]
+    by_cases han : a = n
+    · subst han
+      exact miRow_entry val N a (a + 1) _ b (by omega) (by omega) (by omega) (by omega)
+    · have ih' := ih (by omega) (by omega)
+      have o1 := miRow_other val N n (n + 1) (miFlat zero val N n) (a * N + b) (fun j hj hjn =>
+        ⟨flat_ne (by omega) (by omega) (Or.inl han), flat_ne (by omega) (by omega) (Or.inr (by omega))⟩)
+      have o2 := miRow_other val N n (n + 1) (miFlat zero val N n) (b * N + a) (fun j hj hjn =>
+        ⟨flat_ne (by omega) (by omega) (Or.inl (by omega)), flat_ne (by omega) (by omega) (Or.inr han)⟩)
+      rw [o1, o2]; exact ih'
+
+theorem miFlat_diag {α : Type} (zero : α) (val : Nat → Nat → α) (N n a : Nat) (hn : n ≤ N)
+    (ha : a < N) : miFlat zero val N n (a * N + a) = zero := by
+  induction n with
+  | zero => rfl
+  | succ n ih =>
+    simp only [miFlat]
+    rw [miRow_other val N n (n + 1) _ (a * N + a) (fun j hj hjn => by
+      by_cases e : a = n
+      · subst e
+        exact ⟨flat_ne ha (by omega) (Or.inr (fun e => hjn e.symm)),
+               flat_ne ha ha (Or.inl (fun e => hjn e.symm))⟩
+      · exact ⟨flat_ne ha (by omega) (Or.inl e), flat_ne ha (by omega) (Or.inr e)⟩)]
+    exact ih (by omega)
+
 end Pyunicorn.Coupling
